@@ -99,7 +99,10 @@ class SSCChart(BaseChart):
             raise ValueError("expected NOTEDATA property first")
 
         for param in iterator:
-            if param.key in BaseSimfile.MULTI_VALUE_PROPERTIES:
+            if (
+                param.key in BaseSimfile.MULTI_VALUE_PROPERTIES
+                and param.value is not None
+            ):
                 self[param.key] = ":".join(param.components[1:])
             else:
                 self[param.key] = param.value
@@ -115,13 +118,17 @@ class SSCChart(BaseChart):
             if value is self.notes:
                 notes_key = key
                 continue
-            if key in BaseSimfile.MULTI_VALUE_PROPERTIES:
+            if value is None:
+                # Key-only parameter (no value component)
+                param = MSDParameter((key,))
+            elif key in BaseSimfile.MULTI_VALUE_PROPERTIES:
                 param = MSDParameter((key, *value.split(":")))
             else:
                 param = MSDParameter((key, value))
             file.write(f"{param}\n")
 
-        notes_param = MSDParameter((notes_key, self[notes_key]))
+        notes = self[notes_key]
+        notes_param = MSDParameter((notes_key,) if notes is None else (notes_key, notes))
         file.write(f"{notes_param}\n\n")
 
 
@@ -216,7 +223,7 @@ class SSCSimfile(BaseSimfile):
         partial_chart: Optional[SSCChart] = None
         for param in parser:
             key = param.key.upper()
-            if key in BaseSimfile.MULTI_VALUE_PROPERTIES:
+            if key in BaseSimfile.MULTI_VALUE_PROPERTIES and param.value is not None:
                 value: Optional[str] = ":".join(param.components[1:])
             else:
                 value = param.value
